@@ -121,6 +121,7 @@ EPOLL_PATTERNS = [
     (r"handle\.closed\s*\.store\(\s*(\w+)\s*,\s*Ordering::(\w+)\s*\)", lambda m: f"store closed {m.group(1)} {m.group(2)}"),
     (r"handle\s*\.closed\s*\.load\(\s*Ordering::(\w+)\s*\)", lambda m: f"load closed {m.group(1)}"),
     (r"\.in_flight\s*\.compare_exchange\(\s*(\w+)\s*,\s*(\w+)\s*,\s*Ordering::(\w+)\s*,\s*Ordering::(\w+)\s*\)", lambda m: f"cas in_flight {m.group(1)} {m.group(2)} {m.group(3)} {m.group(4)}"),
+    (r"events:\s*\(([A-Z_| ]+)\)\s*as u32", lambda m: "events " + m.group(1).replace(" ", "")),
     (r"epoll_ctl\([^;]*?EPOLL_CTL_DEL", "epoll_ctl DEL"),
     (r"epoll_ctl\([^;]*?EPOLL_CTL_ADD", "epoll_ctl ADD"),
     (r"epoll_wait\(", "epoll_wait"),
@@ -145,7 +146,7 @@ EPOLL_PATTERNS = [
 ]
 
 
-NOT_STEPS = {"{", "}", "return", "continue", "setup", "drop stream", "accept", "epoll_wait", "drain_wake", "take dead list"}
+NOT_STEPS = {"{", "}", "return", "continue", "setup", "drop stream", "accept", "epoll_wait", "drain_wake", "take dead list", "events EPOLLIN|EPOLLRDHUP"}
 
 
 def merge_take_teardown(toks):
@@ -179,6 +180,48 @@ def site_actions(job, serve):
     return out
 
 
+SERVER_PATTERNS = [
+    (r"read_request\(", "read_request"),
+    (r"Status::BAD_REQUEST", "400"),
+    (r"Status::of\(431\)", "431"),
+    (r"Headers::close\(\)", "close-headers"),
+    (r"config\.pre_routing_hook", "hook?"),
+    (r"\(hook\)\(", "call hook"),
+    (r"PreRoutingAction::Proceed", "Proceed"),
+    (r"PreRoutingAction::Drop", "Drop"),
+    (r"request\.headers\.is_connection_close\(\)", "request close?"),
+    (r"ctx\.headers\.is_connection_close\(\)", "request close?"),
+    (r"!response\.keep_alive", "not response keep-alive"),
+    (r"response\.keep_alive", "response keep-alive"),
+    (r"BodyReader::from_request\(", "from_request"),
+    (r"\.on_failure\(&body_failed\)", "on_failure"),
+    (r"\bdrop\(", "drop"),
+    (r"body_failed\.load\(", "body failed?"),
+    (r"!body_failed\.load\(", "not body failed?"),
+    (r"\.match_route\(", "match_route"),
+    (r"\(matched_route\.route\)\(ctx, response\)\?", "call handler ?"),
+    (r"client_requested_close", "client_requested_close"),
+    (r"return Ok\(false\)", "return close"),
+    (r"return Ok\(", "return"),
+    (r"Ok\(false\)", "close"),
+    (r"handle_one_request\(", "handle_one_request"),
+    (r"handle_connection\(", "handle_connection"),
+    (r"connection_teardown_hook", "teardown"),
+    (r"connection_setup_hook", "setup"),
+    (r"ConnectionSetupAction::Proceed", "Proceed"),
+    (r"ConnectionSetupAction::Drop", "Drop"),
+    (r"ConnectionSetupAction::StopAccepting", "StopAccepting"),
+    (r"listener\.accept\(\)", "accept"),
+    (r"pool\.execute\(", "execute"),
+    (r"thread::spawn\(", "spawn"),
+    (r"\bcontinue\b", "continue"),
+    (r"\bbreak\b", "break"),
+    (r"\bloop\b", "loop"),
+    (r"!keep_alive", "not keep_alive"),
+    (r"return Ok\(\(\)\)", "return"),
+]
+
+
 def lean_list(name, toks):
     return f"def {name} : List String := [" + ", ".join('"' + t.replace('"', "'") + '"' for t in toks) + "]"
 
@@ -204,6 +247,11 @@ def main():
     job = skeleton(fn_body(ep[m.end():], "run"), EPOLL_PATTERNS)
     serve = skeleton(fn_body(ep, "serve_epoll"), EPOLL_PATTERNS)
     L.append(lean_list("epollActions", site_actions(job, serve)))
+    sv = strip_hooks(strip_comments(open(os.path.join(REPO, "src/server/mod.rs")).read()))
+    L.append(lean_list("serverHandleOne", skeleton(fn_body(sv, "handle_one_request"), SERVER_PATTERNS)))
+    L.append(lean_list("serverHandleConnection", skeleton(fn_body(sv, "handle_connection"), SERVER_PATTERNS)))
+    L.append(lean_list("serverServe", skeleton(fn_body(sv, "serve"), SERVER_PATTERNS)))
+    L.append(lean_list("serverServeThreaded", skeleton(fn_body(sv, "serve_threaded"), SERVER_PATTERNS)))
     L.append("\nend Khttp.Gen\n")
     text = "\n".join(L)
     old = open(OUT).read() if os.path.exists(OUT) else None
